@@ -26,6 +26,7 @@ logger.setLevel(logging.DEBUG)
 
 NUM_FOLDS  = 2
 SVD_DIMS = 8
+RANDOM_STATE = 123
 
 try:
     from outrank.algorithms.feature_ranking import ranking_mi_numba
@@ -46,7 +47,7 @@ def sklearn_surrogate(
 
     if '-SVD' in surrogate_model and X.shape[1] > 2:
         # yes this is not super correct due to embedding full data first, but it's much faster + seems to offer same results anyways.
-        X = TruncatedSVD(n_components=min(SVD_DIMS, X.shape[1])).fit_transform(X)
+        X = TruncatedSVD(n_components=min(SVD_DIMS, X.shape[1]), random_state=RANDOM_STATE).fit_transform(X)
 
     clf = initialize_classifier(surrogate_model, n_dim=min(X.shape[1], 1024))
     scores = cross_val_score(clf, X, vector_second, scoring='neg_log_loss', cv=NUM_FOLDS)
@@ -180,15 +181,15 @@ def initialize_classifier(surrogate_model: str, n_dim: int) -> Any:
         return LogisticRegression(max_iter=100000)
 
     elif 'surrogate-SVM' in surrogate_model:
-        return SVC(gamma='auto', probability=True)
+        return SVC(gamma='auto', probability=True, random_state=RANDOM_STATE)
 
     elif 'surrogate-SGD-RP' in surrogate_model:
-        clf = Pipeline([('proj', random_projection.SparseRandomProjection(n_components=n_dim)), ('reg', SGDClassifier(max_iter=100000, loss='log_loss'))])
+        clf = Pipeline([('proj', random_projection.SparseRandomProjection(n_components=n_dim, random_state=RANDOM_STATE)), ('reg', SGDClassifier(max_iter=100000, loss='log_loss', random_state=RANDOM_STATE))])
         return clf
 
     elif 'surrogate-SGD' in surrogate_model:
-        return SGDClassifier(max_iter=100000, loss='log_loss')
+        return SGDClassifier(max_iter=100000, loss='log_loss', random_state=RANDOM_STATE)
 
     else:
         logger.warning(f'The chosen surrogate model {surrogate_model} is not supported, falling back to surrogate-SGD')
-        return SGDClassifier(max_iter=100000, loss='log_loss')
+        return SGDClassifier(max_iter=100000, loss='log_loss', random_state=RANDOM_STATE)
